@@ -228,7 +228,9 @@ func showValues(vs []any) string {
 // program wraps a constant declaration and observation statements in a main package.
 func program(decl string, obs []string) string {
 	var b strings.Builder
-	b.WriteString("package main\n\nfunc main() {\n\t")
+	b.WriteString("package main\n\n")
+	b.WriteString(Prelude)
+	b.WriteString("\nfunc main() {\n\t")
 	b.WriteString(decl)
 	b.WriteString("\n")
 	for _, o := range obs {
